@@ -956,6 +956,13 @@ def _alter_files(
         mode_id = None
         if wt_path is not None:
             trans_id = tt.trans_id_tree_path(wt_path)
+        elif (
+            getattr(change, "file_id", None) is not None
+            and tt._tree.supports_file_ids
+        ):
+            # Use the trans id that children of this entry will find through
+            # their parent's file id, rather than a second, unrelated one.
+            trans_id = tt.trans_id_file_id(change.file_id)
         else:
             trans_id = tt.assign_id()
         if change.changed_content:
